@@ -29,6 +29,22 @@ func (e *encoder) wv(b []value)  { e.out = append(e.out, b...) }
 func (e *encoder) quoted(v value) { e.w("\""); e.wv(strBytes(v)); e.w("\"") }
 
 func (e *encoder) isZero(t types.Type, v value) bool {
+	if t != nil && !e.json {
+		// yaml.v3 asks the value itself when it implements IsZero() bool (yaml.IsZeroer)
+		ms := e.i.prog.MethodSets.MethodSet(t)
+		for k := 0; k < ms.Len(); k++ {
+			if f, ok := ms.At(k).Obj().(*types.Func); ok && f.Name() == "IsZero" {
+				sig := f.Type().(*types.Signature)
+				if sig.Params().Len() == 0 && sig.Results().Len() == 1 {
+					if m := e.i.methodByName(t, "IsZero"); m != nil {
+						if b, ok := call(e.i, e.fr, token.NoPos, m, []value{v}).(bool); ok {
+							return b
+						}
+					}
+				}
+			}
+		}
+	}
 	switch x := v.(type) {
 	case nil:
 		return true
